@@ -9,6 +9,7 @@ import (
 	"context"
 	"encoding/hex"
 	"fmt"
+	spb "github.com/openconfig/gribi/v1/proto/service"
 	"math/rand/v2"
 	"strings"
 	"testing"
@@ -412,6 +413,70 @@ func fluentCase(seed uint64, idx int) *CaseSpec {
 				m := st.sent[sentSoFar-1]
 				st.mu.Unlock()
 				t.Add("fl.mod %d %s => %s", ty, L(ks), encFields(flatten(m)))
+			case x < 96 && x >= 93:
+				// a Get or Flush request built by a fresh chain of setters: what reaches the wire is
+				// what *this* chain set (compared with the request built directly from the same choices)
+				if r.IntN(2) == 0 {
+					g := c.Get()
+					want := &spb.GetRequest{}
+					switch r.IntN(3) {
+					case 0:
+						g = g.AllNetworkInstances()
+						want.NetworkInstance = &spb.GetRequest_All{All: &spb.Empty{}}
+					case 1:
+						n := []string{"DEFAULT", "VRF1"}[r.IntN(2)]
+						g = g.WithNetworkInstance(n)
+						want.NetworkInstance = &spb.GetRequest_Name{Name: n}
+					}
+					if r.IntN(2) == 0 {
+						a := []fluent.AFT{fluent.AllAFTs, fluent.IPv4, fluent.NextHopGroup, fluent.NextHop, fluent.IPv6}[r.IntN(5)]
+						g = g.WithAFT(a)
+						want.Aft = map[fluent.AFT]spb.AFTType{fluent.AllAFTs: spb.AFTType_ALL, fluent.IPv4: spb.AFTType_IPV4, fluent.NextHopGroup: spb.AFTType_NEXTHOP_GROUP, fluent.NextHop: spb.AFTType_NEXTHOP, fluent.IPv6: spb.AFTType_IPV6}[a]
+					}
+					stub.mu.Lock()
+					before := len(stub.gets)
+					stub.mu.Unlock()
+					g.Send()
+					stub.mu.Lock()
+					if len(stub.gets) > before {
+						t.Add("fl.req get %s %s", encFields(flatten(stub.gets[len(stub.gets)-1])), encFields(flatten(want)))
+					} else {
+						t.Add("fl.req get-not-sent [] []")
+					}
+					stub.mu.Unlock()
+				} else {
+					f := c.Flush()
+					want := &spb.FlushRequest{}
+					switch r.IntN(3) {
+					case 0:
+						f = f.WithAllNetworkInstances()
+						want.NetworkInstance = &spb.FlushRequest_All{All: &spb.Empty{}}
+					case 1:
+						n := []string{"DEFAULT", "VRF1"}[r.IntN(2)]
+						f = f.WithNetworkInstance(n)
+						want.NetworkInstance = &spb.FlushRequest_Name{Name: n}
+					}
+					switch r.IntN(3) {
+					case 0:
+						f = f.WithElectionOverride()
+						want.Election = &spb.FlushRequest_Override{Override: &spb.Empty{}}
+					case 1:
+						lo, hi := uint64(1+r.IntN(5)), uint64(r.IntN(2))
+						f = f.WithElectionID(lo, hi)
+						want.Election = &spb.FlushRequest_Id{Id: &spb.Uint128{Low: lo, High: hi}}
+					}
+					stub.mu.Lock()
+					before := len(stub.flushes)
+					stub.mu.Unlock()
+					f.Send()
+					stub.mu.Lock()
+					if len(stub.flushes) > before {
+						t.Add("fl.req flush %s %s", encFields(flatten(stub.flushes[len(stub.flushes)-1])), encFields(flatten(want)))
+					} else {
+						t.Add("fl.req flush-not-sent [] []")
+					}
+					stub.mu.Unlock()
+				}
 			case x < 97 && s > 5:
 				// the same fluent client stopped and started again (a new stream): its operation
 				// ids and its current election id go on
